@@ -464,6 +464,10 @@ def parse_interest(wire: BinaryStr, with_tl: bool = True) -> Interest:
     ret = InterestPacketValue.parse(wire, markers)
     if 'name' not in ret.__dict__:
         raise DecodeError('the Name of the Interest is missing')
+    if ret.signature_info is not None and ret.application_parameters is None:
+        # The signed portion is a plain concatenation of the name components and the elements from
+        # ApplicationParameters on: without the latter, the same signed bytes can be read with other name boundaries
+        raise DecodeError('a signed Interest must carry ApplicationParameters')
     params = InterestParam()
     params.can_be_prefix = ret.can_be_prefix
     params.must_be_fresh = ret.must_be_fresh
